@@ -15,7 +15,7 @@ package hashing
 //@ func HashingReaderWrapper.Read
 //@   props C07 C04 C06
 //@   requires wrapperOK(t)
-//@   assigns *bytes, X.stream, X.hash
+//@   assigns *bytes, X.stream, X.hacc, X.hkind
 
 //@ func HashingReaderWrapper.Peek
 //@   props C07 C06
@@ -25,13 +25,13 @@ package hashing
 //@ func HashingReaderWrapper.StartHashCalculation
 //@   props C04 C06 C07
 //@   requires t != nil
-//@   assigns HashingReaderWrapper.CalculateSignature, HashingReaderWrapper.hash, X.hash
+//@   assigns HashingReaderWrapper.CalculateSignature, HashingReaderWrapper.hash, X.hacc, X.hkind
 //@   ensures t.CalculateSignature && t.hash != nil && t.Reader == old(t.Reader)
 
 //@ func HashingReaderWrapper.FinishHashCalculation
 //@   props C04 C06 C07
 //@   requires t != nil && t.hash != nil
-//@   assigns HashingReaderWrapper.CalculateSignature, X.hash
+//@   assigns HashingReaderWrapper.CalculateSignature, X.hacc, X.hkind
 //@   ensures !t.CalculateSignature && t.Reader == old(t.Reader) && t.hash == old(t.hash)
 
 //@ func HashingReaderWrapper.Discard
